@@ -136,6 +136,9 @@ type Result struct {
 
 func firstDiff(a, b []string) int {
 	for i := range a {
+		if strings.HasPrefix(a[i], "~") {
+			continue // the implementation's output is not comparable (e.g. unreliable wall-clock timing)
+		}
 		if i >= len(b) || a[i] != b[i] {
 			return i
 		}
